@@ -418,6 +418,26 @@ fn run_case(line: &str) -> Result<String, String> {
             ps.sort();
             Ok(format!("PARAMS( {} )", ps.iter().map(|x| hex(x.as_bytes())).collect::<Vec<_>>().join(" ")))
         }
+        "serform" => {
+            // serform json|bincode <src>: the serialized form of the compiled program (hex of the bytes)
+            let fmt = t.next()?;
+            let src = unhex_str(t.next()?)?;
+            let prog = match rscel::Program::from_source(&src) {
+                Ok(p) => p,
+                Err(e) => return Ok(format!("CERR {}", print_err(&e))),
+            };
+            Ok(match fmt {
+                "json" => match serde_json::to_string(&prog) {
+                    Ok(x) => format!("OK {}", hex(x.as_bytes())),
+                    Err(e) => format!("SERFAIL {}", e),
+                },
+                "bincode" => match bincode::serialize(&prog) {
+                    Ok(x) => format!("OK {}", hex(&x)),
+                    Err(e) => format!("SERFAIL {}", e),
+                },
+                _ => return Err("fmt".to_string()),
+            })
+        }
         "tosql" => {
             // tosql <src>: CEL -> SQL text through the to_sql extension
             use rscel_to_sql::IntoSqlBuilder;
